@@ -74,6 +74,68 @@ def load_path(schema, path):
     return ("ok", outcome.canon_value(config))
 
 
+ENTRY_WAYS = ["rel-here", "rel-up", "rel-deep", "url", "fobj", "fobj-rel",
+              "validator-rel", "validator-up"]
+
+
+def load_variant(ctx, schema, main, dirpath, how, xml):
+    """The cut layout reached another way: by a path relative to the
+    current directory (which is the file's directory, its parent, or a
+    directory beside it), by file: URL, from an open file (named
+    absolutely or relatively), or through the validator script given a
+    relative FILE argument.  -> outcome, or ('status', n) for the
+    validator."""
+    import contextlib
+    import io
+    import urllib.request
+    import ZConfig
+    old = os.getcwd()
+    here = os.path.dirname(main)
+    try:
+        if how in ("rel-here", "fobj-rel", "validator-rel"):
+            os.chdir(here)
+            arg = os.path.basename(main)
+        elif how in ("rel-up", "validator-up"):
+            os.chdir(dirpath)
+            arg = os.path.relpath(main, dirpath)
+        elif how == "rel-deep":
+            deep = os.path.join(dirpath, "cwd", "deep")
+            os.makedirs(deep, exist_ok=True)
+            os.chdir(deep)
+            arg = os.path.relpath(main, deep)
+        elif how == "url":
+            arg = "file://" + urllib.request.pathname2url(main)
+        else:
+            arg = main
+        if how.startswith("validator"):
+            from ZConfig import validator
+            sp = os.path.join(ctx.tmp, "c06-schema.xml")
+            with open(sp, "w", encoding="utf-8") as f:
+                f.write(xml)
+            err = io.StringIO()
+            try:
+                with contextlib.redirect_stderr(err):
+                    rc = validator.main(["-s", sp, arg])
+            except BaseException as e:  # noqa
+                return ("status", "%s: %s" % (type(e).__name__, e))
+            finally:
+                import gc
+                gc.collect()       # argparse.FileType never closes
+            return ("status", rc, err.getvalue()[:200])
+        try:
+            if how.startswith("fobj"):
+                with open(arg, encoding="utf-8", newline="\n") as f:
+                    config, handler = ZConfig.loadConfigFile(schema, f)
+            else:
+                config, handler = ZConfig.loadConfig(schema, arg)
+        except Exception as e:  # noqa
+            fam, tn, lineno, url = outcome.classify_exception(e)
+            return ("reject", fam, tn, lineno, url, str(e)[:200])
+        return ("ok", outcome.canon_value(config))
+    finally:
+        os.chdir(old)
+
+
 def reused_loader_load(ctx, loader, layout, main, dirpath, rng, poison):
     """Load the layout through a ConfigLoader object that has served every
     earlier case of this shard.  With *poison*, the same loader first reads
@@ -108,7 +170,7 @@ def reused_loader_load(ctx, loader, layout, main, dirpath, rng, poison):
 
 
 def compare(ctx, schema, corpus, text, case_extra, rng, dirpath, tag="",
-            loader=None):
+            loader=None, xml=None):
     res = ctx.res
     layout = cuts.cut_text(rng, text)
     if layout is None:
@@ -175,6 +237,29 @@ def compare(ctx, schema, corpus, text, case_extra, rng, dirpath, tag="",
                     list(o_cut[:2]) if o_cut[0] == "ok" else list(o_cut[:6]),
                     detail="files=%r" % (layout.texts(),),
                     vsig="inc|%s|%s|%s" % (corpus, o_in[0], o_cut[0]))
+    # the same files reached the other ways a resource can be named
+    if rng.random() < 0.5:
+        how = rng.choice(ENTRY_WAYS)
+        if how.startswith("validator") and (xml is None or (
+                o_in[0] != "ok" and o_in[1] != "config")):
+            how = "rel-here"
+        res.evaluations += 1
+        o_alt = load_variant(ctx, schema, main, dirpath, how, xml)
+        res.count("entry_" + how)
+        if o_alt[0] == "status":
+            bad = o_alt[1] != (0 if o_in[0] == "ok" else 1)
+        else:
+            bad = key(o_in) != key(o_alt)
+        if bad:
+            res.violate("include-differs-from-inlined",
+                        dict(case, entry=how, xml=xml),
+                        list(o_in[:2]) if o_in[0] == "ok" else list(o_in[:6]),
+                        list(o_alt[:2]) if o_alt[0] == "ok"
+                        else list(o_alt[:6]),
+                        detail="reached as %s: files=%r"
+                        % (how, layout.texts()),
+                        vsig="entry|%s|%s|%s|%s" % (corpus, how, o_in[0],
+                                                    o_alt[0]))
     # the whole text at the end of a long chain of includes ("to any
     # include depth")
     if rng.random() < 0.08:
@@ -348,7 +433,8 @@ def run_shard(ctx):
             text = "\n".join(ls)
             ctx.res.count("texts_with_u_feff_line")
         compare(ctx, p.schema, "family", text, {"model": p.model}, rng,
-                dirpath, ",".join(sorted(f["kind"] for f in p.faults)))
+                dirpath, ",".join(sorted(f["kind"] for f in p.faults)),
+                xml=p.xml)
     # texts with %import lines (C12's generated component packages): a
     # vocabulary extension made inside a fragment stays in force after the
     # fragment, one made before it holds inside it
@@ -385,7 +471,8 @@ def run_shard(ctx):
     for i in range(N_DEFINE[ctx.tier] // ctx.nshards):
         ctx.res.count("define_texts")
         compare(ctx, dschema, "defines", define_text(rng),
-                {"schema": "defines"}, rng, dirpath, loader=long_lived)
+                {"schema": "defines"}, rng, dirpath, loader=long_lived,
+                xml=DEFINE_SCHEMA)
 
 
 def replay_imports(ctx, case):
@@ -448,6 +535,14 @@ def replay(ctx, case):
                             "rejected", "accepted")
         return
     o_in = outcome.load_text(schema, case["text"])
+    if case.get("entry"):
+        o_cut = load_variant(ctx, schema, os.path.join(d, "b", "main.conf"),
+                             d, case["entry"], case.get("xml"))
+        if o_cut[0] == "status":
+            if o_cut[1] != (0 if o_in[0] == "ok" else 1):
+                ctx.res.violate("include-differs-from-inlined", case,
+                                list(o_in[:6]), list(o_cut))
+            return
     if key(o_in) != key(o_cut):
         ctx.res.violate("include-differs-from-inlined", case,
                         list(o_in[:6]), list(o_cut[:6]))
